@@ -293,6 +293,12 @@ func (c *Ctx) finish(spec *propSpec, start time.Time, extra map[string]any) int 
 			ps = append(ps, p.PkgPath)
 		}
 		cov["packages_U1"] = ps
+		if len(c.U1.Renames) > 0 {
+			cov["names_normalised_U1"] = c.U1.Renames
+		}
+	}
+	if c.U2 != nil && len(c.U2.Renames) > 0 {
+		cov["names_normalised_U2"] = c.U2.Renames
 	}
 	if c.U2 != nil {
 		var ps []string
@@ -314,6 +320,13 @@ func (c *Ctx) finish(spec *propSpec, start time.Time, extra map[string]any) int 
 	if err := os.WriteFile(filepath.Join(evDir, c.Prop+".json"), b, 0o644); err != nil {
 		fmt.Println("ERROR writing evidence:", err)
 		return 2
+	}
+	for _, u := range []*Universe{c.U1, c.U2} {
+		if u != nil {
+			for _, n := range u.Renames {
+				fmt.Printf("NOTE: %s names: %s\n", c.Prop, n)
+			}
+		}
 	}
 	fmt.Printf("%s %s: %d obligations, %d discharged, %d known findings, %d failing; %d rules; %.1fs\n",
 		c.Prop, c.Tier, len(c.Obs), disc, len(knownOut), nviol, len(ruleIDs), time.Since(start).Seconds())
